@@ -189,6 +189,20 @@ def call_builtin(it, name, args, kwargs):
         if isinstance(v, SObj):
             return I.ClassRef(None, v.cls)
         return Opaque('type')
+    if name == 'namedtuple':
+        fields = args[1]
+        if isinstance(fields, str):
+            fields = fields.replace(',', ' ').split()
+        fields = list(fields)
+        tname = args[0]
+
+        def make(a, kw):
+            vals = dict(zip(fields, a))
+            vals.update(kw)
+            if set(vals) != set(fields):
+                raise PyRaise('TypeError')
+            return SObj('namedtuple:' + str(tname), vals)
+        return Closure(make, 'namedtuple')
     if name == 'iter':
         v = args[0]
         if isinstance(v, dict):
@@ -568,6 +582,8 @@ def call_module(it, fv, args, kwargs):
     if name in ('any', 'all'):
         if isinstance(a0, SArr):
             return npm.np_any(ctx, a0, all_=(name == 'all'))
+        if isinstance(a0, bool) or is_bool_term(a0):
+            return a0
         raise Unsupported('np.any of non-array')
     if name in ('asarray', 'array', 'atleast_1d', 'ascontiguousarray'):
         if isinstance(a0, SArr):
